@@ -39,6 +39,7 @@ void vs_push(vsock_t *vs, const coap_address_t *from, const coap_address_t *to,
              const uint8_t *data, size_t len);
 int vf_new_conn_id(void);
 void vf_shadow_report(void);
+void vf_tls_virtual_clock(void);
 
 /* event emission (JSON lines on stdout) */
 void ev_begin(const char *name);
